@@ -52,6 +52,11 @@ VALID_KW = [
     {'emissions': {'pmvol_method': 'foa3', 'gse_enabled': False}},
     {'emissions': {'lifecycle_enabled': False, 'sox_enabled': False}},
     {'weather': {'use_weather': False, 'weather_data_dir': None}},   # optional value explicitly unset
+    # the same keys as above with other values, so that file and keyword overlay disagree
+    {'emissions': {'nox_method': 'P3T3'}},
+    {'emissions': {'apu_enabled': True, 'co2_enabled': False, 'pmvol_method': 'none'}},
+    {'emissions': {'climb_descent_mode': 'trajectory', 'pmnvol_method': 'none'}},
+    {'weather': {'use_weather': True}},
 ]
 INVALID_VALUE_KW = [
     {'emissions': {'nox_method': 'bogus'}},
@@ -412,7 +417,7 @@ def gen_op(rng: random.Random, sim: ConfigSim, cfg):
     kinds = list(w)
     k = rng.choices(kinds, [w[x] for x in kinds])[0]
     if k == 'load' and rng.random() < 0.12:
-        return {'op': 'construct', 'kwargs': copy.deepcopy(rng.choice(VALID_KW[:7])),
+        return {'op': 'construct', 'kwargs': copy.deepcopy(rng.choice(VALID_KW[:7] + VALID_KW[11:])),
                 'how': rng.choice(['init', 'validate'])}
     if k == 'load':
         r = rng.random()
